@@ -40,7 +40,7 @@ theorem put_getD (b : WBuf) (off : Nat) (xs : List Nat) (i : Nat) :
       if off ≤ i ∧ i < off + xs.length ∧ i < b.bytes.length then xs.getD (i - off) 0 else b.bytes.getD i 0 := by
   simp only [WBuf.put]; exact getD_upd ..
 theorem put_hi (b : WBuf) (off : Nat) (xs : List Nat) :
-    (b.put off xs).hi = if xs.length = 0 then b.hi else max b.hi (off + xs.length) := rfl
+    (b.put off xs).hi = max b.hi (off + xs.length) := rfl
 
 /-! ## inversion of the checked primitives -/
 
